@@ -17,7 +17,7 @@ Fixpoint g_ok (g : geom) : Prop :=
   | GCont1D _ | GDiscrete _ => True
   | GCont2D n1 n2 => (2 <= n1 * n2)%nat
   | GImage r c _ _ => (0 < r * c)%nat
-  | GMapped g' ma _ has => has = true /\ ma <> 0%Qc /\ g_ok g'
+  | GMapped g' fm fi => (exists f', fi = Some f' /\ forall x, f' (fm x) = x) /\ g_ok g'
   | GKL N nm coefs tau dstM idstM =>
       (2 <= kl_modes N nm)%nat /\ length coefs = kl_modes N nm /\ Forall (fun c => c <> 0%Qc) coefs /\ tau <> 0%Qc /\
       length idstM = N /\
@@ -27,13 +27,37 @@ Fixpoint g_ok (g : geom) : Prop :=
 
 (* geometries whose maps act on the columns of a batch in BOTH directions (Image2D.fun2par does not) *)
 Fixpoint g_colwise (g : geom) : bool :=
-  match g with GImage _ _ _ v => v | GMapped g' _ _ _ => g_colwise g' | _ => true end.
+  match g with GImage _ _ _ v => v | GMapped g' _ _ => g_colwise g' | _ => true end.
 
-Lemma arr_map_inv ma mb (b : arr Qc) : ma <> 0%Qc ->
-  arr_map (fun y => (y - mb) / ma)%Qc (arr_map (fun x => ma * x + mb)%Qc b) = b.
+(* imap after map, on the values that occur *)
+Lemma arr_map_inv (fm f' : Qc -> Qc) (b : arr Qc) : Forall (fun v => f' (fm v) = v) (dat b) ->
+  arr_map f' (arr_map fm b) = b.
 Proof.
-  intros Hma. destruct b as [s x]. unfold arr_map. cbn [shp dat]. f_equal.
-  rewrite map_map. rewrite map_ext with (g := fun v => v) by (intros v; field; exact Hma). apply map_id.
+  intros H. destruct b as [s x]. unfold arr_map. cbn [shp dat] in *. f_equal.
+  rewrite map_map. rewrite map_ext_in with (g := fun v => v); [apply map_id|].
+  intros v Hv. rewrite Forall_forall in H. apply H. exact Hv.
+Qed.
+
+(* one MappedGeometry layer over any geometry, ANY map/imap pair that is inverse on the function values that occur *)
+Theorem mapped_roundtrip_pointwise g (fm f' : Qc -> Qc) (a b : arr Qc) :
+  g_par2fun g a = Some b -> Forall (fun v => f' (fm v) = v) (dat b) -> g_fun2par g b = Some a ->
+  obind (g_par2fun (GMapped g fm (Some f')) a) (g_fun2par (GMapped g fm (Some f'))) = Some a.
+Proof.
+  intros Hb Hinv Hback. cbn [g_par2fun g_fun2par]. rewrite Hb. cbn [option_map obind].
+  rewrite arr_map_inv by exact Hinv. exact Hback.
+Qed.
+
+(* instances: affine maps with non-zero slope, and Moebius maps (rational, inverse only away from the pole) *)
+Lemma affine_inverse (ma mb x : Qc) : ma <> 0%Qc -> ((ma * x + mb - mb) / ma)%Qc = x.
+Proof. intros H. field. exact H. Qed.
+
+Lemma moebius_inverse (a b c d x : Qc) : (a * d - b * c)%Qc <> 0%Qc -> (c * x + d)%Qc <> 0%Qc ->
+  let y := ((a * x + b) / (c * x + d))%Qc in ((d * y - b) / (- c * y + a))%Qc = x.
+Proof.
+  intros Hdet Hden y. unfold y.
+  assert (N1 : (d * ((a * x + b) / (c * x + d)) - b)%Qc = ((a * d - b * c) * x / (c * x + d))%Qc) by (field; exact Hden).
+  assert (N2 : (- c * ((a * x + b) / (c * x + d)) + a)%Qc = ((a * d - b * c) / (c * x + d))%Qc) by (field; exact Hden).
+  rewrite N1, N2. field. split; assumption.
 Qed.
 
 (* fun2par(par2fun(p)) = p : a vector (k = 1) for every geometry, a batch of k columns for the column-wise ones *)
@@ -41,7 +65,7 @@ Theorem g_roundtrip g : forall k (a : arr Qc), g_ok g -> (k = 1%nat \/ g_colwise
   shp a = vb_shape (g_par_dim g) k -> length (dat a) = (g_par_dim g * k)%nat ->
   obind (g_par2fun g a) (g_fun2par g) = Some a.
 Proof.
-  induction g as [n|n|n1 n2|r c o v|g IH ma mb has|N nm coefs tau dstM idstM|N idx pr]; intros k a Hok Hk Hs Hl;
+  induction g as [n|n|n1 n2|r c o v|g IH fm fi|N nm coefs tau dstM idstM|N idx pr]; intros k a Hok Hk Hs Hl;
     unfold g_par_dim in Hs, Hl; cbn [g_par_shape g_par2fun g_fun2par] in *; try reflexivity.
   - (* Continuous2D *)
     replace (prodn [(n1 * n2)%nat]) with (n1 * n2)%nat in Hs by (cbn; lia).
@@ -51,9 +75,9 @@ Proof.
     replace (prodn [(r * c)%nat]) with (r * c)%nat in Hs, Hl by (cbn; lia).
     apply image_roundtrip_par; [exact Hok | exact Hs | lia].
   - (* MappedGeometry *)
-    destruct Hok as [-> [Hma Hok]]. cbn [g_colwise] in Hk. specialize (IH k a Hok Hk Hs Hl).
+    destruct Hok as [[f' [-> Hinv]] Hok]. cbn [g_colwise] in Hk. specialize (IH k a Hok Hk Hs Hl).
     destruct (g_par2fun g a) as [b|]; [|discriminate]. cbn [option_map obind] in *.
-    rewrite arr_map_inv by exact Hma. exact IH.
+    rewrite arr_map_inv by (apply Forall_forall; intros v _; apply Hinv). exact IH.
   - (* KLExpansion *)
     destruct Hok as [Hm [Hc [Hnz [Ht [Hil Hlaw]]]]].
     replace (prodn [kl_modes N nm]) with (kl_modes N nm) in Hs, Hl by (cbn; lia).
@@ -85,7 +109,7 @@ Fixpoint fshape (g : geom) : list nat :=
   | GCont1D n | GDiscrete n => [n]
   | GCont2D n1 n2 => [n1; n2]
   | GImage r c _ v => if v then [(r * c)%nat] else [r; c]
-  | GMapped g' _ _ _ => fshape g'
+  | GMapped g' _ _ => fshape g'
   | GKL N _ _ _ _ _ => [N]
   | GStep N _ _ => [N]
   end.
@@ -96,7 +120,7 @@ Fixpoint g_shape_ok (g : geom) : Prop :=
   | GCont1D _ | GDiscrete _ => True
   | GCont2D n1 n2 => (2 <= n1)%nat /\ (2 <= n2)%nat
   | GImage r c _ _ => (0 < r * c)%nat
-  | GMapped g' _ _ _ => g_shape_ok g'
+  | GMapped g' _ _ => g_shape_ok g'
   | GKL N nm _ _ _ idstM => (1 <= kl_modes N nm)%nat /\ (2 <= N)%nat /\ length idstM = N
   | GStep N _ _ => (N <> 1)%nat
   end.
@@ -112,7 +136,7 @@ Qed.
 Theorem g_par2fun_shape g : forall (a : arr Qc), g_shape_ok g -> shp a = g_par_shape g -> length (dat a) = g_par_dim g ->
   exists b, g_par2fun g a = Some b /\ shp b = fshape g /\ length (dat b) = prodn (fshape g).
 Proof.
-  induction g as [n|n|n1 n2|r c o v|g IH ma mb has|N nm coefs tau dstM idstM|N idx pr]; intros a Hok Hs Hl;
+  induction g as [n|n|n1 n2|r c o v|g IH fm fi|N nm coefs tau dstM idstM|N idx pr]; intros a Hok Hs Hl;
     unfold g_par_dim in Hl; cbn [g_par_shape g_par2fun fshape g_shape_ok] in *.
   - exists a. rewrite Hs. repeat split; assumption.
   - exists a. rewrite Hs. repeat split; assumption.
@@ -146,8 +170,8 @@ Proof. unfold ones. cbn [shp dat]. rewrite repeat_length. split; reflexivity. Qe
 Theorem g_fun_shape_eq g : g_shape_ok g -> g_fun_shape g = Some (fshape g).
 Proof.
   intros Hok. destruct g; cbn [g_fun_shape fshape]; try reflexivity.
-  pose proof (ones_ok [prodn (g_par_shape (GMapped g ma mb has_imap))]) as [O1 O2].
-  destruct (g_par2fun_shape (GMapped g ma mb has_imap) (ones [prodn (g_par_shape (GMapped g ma mb has_imap))])) as [b [E1 [E2 E3]]].
+  pose proof (ones_ok [prodn (g_par_shape (GMapped g fm fi))]) as [O1 O2].
+  destruct (g_par2fun_shape (GMapped g fm fi) (ones [prodn (g_par_shape (GMapped g fm fi))])) as [b [E1 [E2 E3]]].
   - exact Hok.
   - rewrite O1. symmetry. apply g_par_shape_1d.
   - rewrite O2. unfold g_par_dim. cbn; lia.
